@@ -322,8 +322,12 @@ class Wsdl11(XmlSchema):
                     for f in method.faults:
                         fault = SubElement(operation, WSDL11("fault"))
                         fault.set('name', f.get_type_name())
+                        # wsdl:message elements are defined in the target
+                        # namespace of the wsdl, whatever the namespace of the
+                        # class is.
                         fault.set('message', '%s:%s' % (
-                                        f.get_namespace_prefix(self.interface),
+                            self.interface.get_namespace_prefix(
+                                                        self.interface.tns),
                                         f.get_type_name()))
 
         ser = self.service_elt_dict[applied_service_name]
@@ -418,9 +422,8 @@ class Wsdl11(XmlSchema):
                 for header in in_headers:
                     soap_header = SubElement(input, input_binding_ns('header'))
                     soap_header.set('use', 'literal')
-                    soap_header.set('message', '%s:%s' % (
-                                header.get_namespace_prefix(self.interface),
-                                in_header_message_name))
+                    soap_header.set('message', '%s:%s' % (pref_tns,
+                                                        in_header_message_name))
                     soap_header.set('part', header.get_type_name())
 
             if not (method.is_async or method.is_callback):
@@ -450,9 +453,8 @@ class Wsdl11(XmlSchema):
                     for header in out_headers:
                         soap_header = SubElement(output, output_binding_ns("header"))
                         soap_header.set('use', 'literal')
-                        soap_header.set('message', '%s:%s' % (
-                                header.get_namespace_prefix(self.interface),
-                                out_header_message_name))
+                        soap_header.set('message', '%s:%s' % (pref_tns,
+                                                       out_header_message_name))
                         soap_header.set('part', header.get_type_name())
 
                 if not (method.faults is None):
